@@ -981,6 +981,33 @@ fn grid() {
         for i in 0..n { x.push([i as u8; N]); }
         println!("R vec_reserve_exact_no_move es={} n={} moved={} bound=0", N, n, (x.as_ptr() as usize != p1) as usize);
     }
+    // a String with reserved capacity takes characters of every width up to that capacity without moving
+    {
+        use std::fmt::Write as _;
+        let bump = Bump::new();
+        let mut moved = 0usize;
+        let mut cases = 0usize;
+        for cap in 1usize..=24 {
+            for ch in ['a', 'é', '€', '𝄞'] {
+                for how in 0..4 {
+                    let mut st = bumpalo::collections::String::with_capacity_in(cap, &bump);
+                    if how == 3 { st = bumpalo::collections::String::new_in(&bump); st.push('x'); st.reserve(cap); }
+                    let _neighbour = bump.alloc(0u8);      // growing in place is not possible
+                    let (p0, c0) = (st.as_ptr() as usize, st.capacity());
+                    while st.len() + ch.len_utf8() <= c0 {
+                        match how {
+                            0 | 3 => st.push(ch),
+                            1 => { let _ = st.write_char(ch); }
+                            _ => st.extend(std::iter::once(ch)),
+                        }
+                        if st.as_ptr() as usize != p0 || st.capacity() != c0 { moved += 1; break; }
+                    }
+                    cases += 1;
+                }
+            }
+        }
+        println!("R string_reserved_no_move es=1 cases={} moved={} bound=0", cases, moved);
+    }
     // every way of growing a vector by one element at a time reallocates logarithmically often
     fn growth_by(how: usize, steps: usize) {
         let bump = Bump::new();
@@ -1218,6 +1245,118 @@ fn grid() {
                     if !same { println!("Q collect_early_stop_huge_hint hint={} stop={} | option:{} result:{} boxed:{} | none_or_err", hint, stop, if bo.is_err() { "panic" } else { "differs_or_ok" }, if br.is_err() { "panic" } else { "differs_or_ok" }, if bb.is_err() { "panic" } else { "differs_or_ok" }); }
                 }
             }
+        }
+        // C15 / C13: the draining iterators under the iterator adaptors that skip items (nth, skip,
+        // step_by, nth_back, last, rev): what is returned, what stays in the vector and what is
+        // dropped when, against std with a drop ledger; every element is dropped exactly once
+        {
+            use std::cell::RefCell;
+            use std::rc::Rc;
+            struct D(u32, Rc<RefCell<Vec<u32>>>);
+            impl Drop for D { fn drop(&mut self) { self.1.borrow_mut().push(self.0); } }
+            let mut bad = 0usize;
+            let mut cases = 0usize;
+            macro_rules! scenario {
+                ($mk:expr, $n:expr, $a:expr, $b:expr, $k:expr, $how:expr) => {{
+                    let led = Rc::new(RefCell::new(Vec::<u32>::new()));
+                    let mut v = $mk;
+                    for i in 0..$n as u32 { v.push(D(i, led.clone())); }
+                    let (a, b, k) = ($a, $b, $k);
+                    let got: Vec<u32> = match $how {
+                        0 => v.drain(a..b).nth(k).map(|d| d.0).into_iter().collect(),
+                        1 => v.drain(a..b).skip(k).map(|d| d.0).collect(),
+                        2 => v.drain(a..b).step_by(k + 1).map(|d| d.0).collect(),
+                        3 => v.drain(a..b).nth_back(k).map(|d| d.0).into_iter().collect(),
+                        4 => v.drain(a..b).rev().skip(k).map(|d| d.0).collect(),
+                        5 => v.drain(a..b).last().map(|d| d.0).into_iter().collect(),
+                        6 => { let mut it = v.drain(a..b); let x = it.nth(k).map(|d| d.0); let y = it.next().map(|d| d.0); let z = it.nth_back(0).map(|d| d.0); [x, y, z].iter().flatten().copied().collect() }
+                        7 => { let w = std::mem::replace(&mut v, $mk); w.into_iter().nth(k).map(|d| d.0).into_iter().collect() }
+                        8 => { let w = std::mem::replace(&mut v, $mk); w.into_iter().skip(k).step_by(2).map(|d| d.0).collect() }
+                        9 => { let w = std::mem::replace(&mut v, $mk); w.into_iter().nth_back(k).map(|d| d.0).into_iter().collect() }
+                        _ => { let w = std::mem::replace(&mut v, $mk); let mut it = w.into_iter(); let x = it.nth(k).map(|d| d.0); let c = it.count() as u32; x.into_iter().chain(std::iter::once(c)).collect() }
+                    };
+                    let mut mid = led.borrow().clone();
+                    mid.sort();
+                    let left: Vec<u32> = v.iter().map(|d| d.0).collect();
+                    drop(v);
+                    let mut all = led.borrow().clone();
+                    all.sort();
+                    (got, left, mid, all)
+                }};
+            }
+            for n in [0usize, 1, 4, 7] {
+                for a in 0..=n.min(3) {
+                    for b in a..=n {
+                        for k in 0..4usize {
+                            for how in 0..11 {
+                                if how >= 7 && (a != 0 || b != n) { continue; }
+                                let rb = scenario!(BVec::new_in(&bump), n, a, b, k, how);
+                                let rs = scenario!(Vec::new(), n, a, b, k, how);
+                                cases += 1;
+                                let once = rb.3 == (0..n as u32).collect::<Vec<_>>();
+                                if rb != rs || !once {
+                                    bad += 1;
+                                    if bad <= 3 { println!("Q drain_adaptors n={} range={}..{} k={} how={} | got={:?} left={:?} dropped_then={:?} dropped_in_all={:?} | got={:?} left={:?} dropped_then={:?}", n, a, b, k, how, rb.0, rb.1, rb.2, rb.3, rs.0, rs.1, rs.2); }
+                                }
+                            }
+                        }
+                    }
+                }
+            }
+            println!("Q drain_adaptors_sweep cases={} | {} | same", cases, if bad == 0 { "same".to_string() } else { format!("{}_cases_differ", bad) });
+        }
+        // C20: collections of two arenas that meet (append, extend, clone_from, push_str across
+        // arenas): each keeps its buffer in the arena it was created in, and growing one never
+        // changes the other arena's accounting
+        {
+            fn inside<const M: usize>(b: &Bump<M>, p: usize, bytes: usize) -> bool {
+                bytes == 0 || unsafe { b.iter_allocated_chunks_raw() }.any(|(q, l)| (q as usize) <= p && p + bytes <= q as usize + l)
+            }
+            let mut bad: Vec<String> = Vec::new();
+            for first_cap in [0usize, 1, 8] {
+                for other_len in [0usize, 1, 5, 40] {
+                    for how in 0..6 {
+                        let (a, b) = (Bump::new(), Bump::new());
+                        let mut x: BVec<u64> = BVec::with_capacity_in(first_cap, &a);
+                        let mut y: BVec<u64> = BVec::new_in(&b);
+                        for i in 0..other_len as u64 { y.push(i * 7 + 1); }
+                        let want: Vec<u64> = y.iter().copied().collect();
+                        match how {
+                            0 => x.append(&mut y),
+                            1 => x.extend(y.drain(..)),
+                            2 => x.extend_from_slice(&y),
+                            3 => x.extend_from_slice_copy(&y),
+                            // (clone_from is `*self = source.clone()`: the result is a vector of the source's
+                            // arena by definition, so it is not part of this check)
+                            4 => { for v in y.iter() { x.push(*v); } }
+                            _ => { let mut z = y.clone(); x.append(&mut z); if !inside(&b, z.as_ptr() as usize, z.capacity() * 8) { bad.push(format!("clone_left_arena_b cap={} len={}", first_cap, other_len)); } }
+                        }
+                        let tag = format!("how={} cap={} len={}", how, first_cap, other_len);
+                        if x.as_slice() != want.as_slice() { bad.push(format!("contents {}", tag)); }
+                        if !inside(&a, x.as_ptr() as usize, x.capacity() * 8) { bad.push(format!("x_not_in_a {}", tag)); }
+                        if !inside(&b, y.as_ptr() as usize, y.capacity() * 8) { bad.push(format!("y_not_in_b {}", tag)); }
+                        // growing x afterwards is A's business only
+                        let (ab, bb) = (a.allocated_bytes(), b.allocated_bytes());
+                        b.set_allocation_limit(Some(bb));
+                        let grown = catch_unwind(AssertUnwindSafe(|| { for i in 0..3000u64 { x.push(i); } })).is_ok();
+                        if !grown { bad.push(format!("x_grows_under_b_limit {}", tag)); }
+                        if b.allocated_bytes() != bb { bad.push(format!("b_bytes_changed {}", tag)); }
+                        if grown && a.allocated_bytes() <= ab && x.capacity() * 8 > ab { bad.push(format!("a_bytes_not_charged {}", tag)); }
+                        if !inside(&a, x.as_ptr() as usize, x.capacity() * 8) { bad.push(format!("x_left_a_after_growth {}", tag)); }
+                    }
+                }
+            }
+            // strings
+            for how in 0..3 {
+                let (a, b) = (Bump::new(), Bump::new());
+                let mut x = bumpalo::collections::String::new_in(&a);
+                let y = bumpalo::collections::String::from_str_in("héllo wörld €", &b);
+                match how { 0 => x.push_str(&y), 1 => x.insert_str(0, &y), _ => x.extend(y.chars()) }
+                if x.as_str() != y.as_str() { bad.push(format!("string_contents how={}", how)); }
+                if !inside(&a, x.as_ptr() as usize, x.capacity()) { bad.push(format!("string_x_not_in_a how={}", how)); }
+                if !inside(&b, y.as_ptr() as usize, y.capacity()) { bad.push(format!("string_y_not_in_b how={}", how)); }
+            }
+            println!("I cross_arena_collections | {}", if bad.is_empty() { "ok".to_string() } else { bad.iter().take(4).cloned().collect::<Vec<_>>().join(";") });
         }
         let st: String = "aé€𝄞z".chars().collect();
         let bs: bumpalo::collections::String = "aé€𝄞z".chars().collect_in(&bump);
